@@ -42,6 +42,8 @@ type c14Form struct {
 	Name  string      `json:"name"`
 	Ge    bool        `json:"ge"`
 	Gl    bool        `json:"gl"`
+	Ek    []string    `json:"ek"` // kinds registered in EnterKindMap / LeaveKindMap, whether or not they win
+	Lk    []string    `json:"lk"`
 	Slots [][3]string `json:"slots"` // kind, slot on enter, slot on leave
 }
 
@@ -458,6 +460,22 @@ func (r *c14Run) options(vi int, f *c14Form) *visitor.VisitorOptions {
 			if o.LeaveKindMap == nil {
 				o.LeaveKindMap = map[string]visitor.VisitFunc{}
 			}
+			o.LeaveKindMap[kind] = r.fn(vi, "lk", true)
+		}
+	}
+	for _, kind := range f.Ek {
+		if o.EnterKindMap == nil {
+			o.EnterKindMap = map[string]visitor.VisitFunc{}
+		}
+		if o.EnterKindMap[kind] == nil {
+			o.EnterKindMap[kind] = r.fn(vi, "ek", false)
+		}
+	}
+	for _, kind := range f.Lk {
+		if o.LeaveKindMap == nil {
+			o.LeaveKindMap = map[string]visitor.VisitFunc{}
+		}
+		if o.LeaveKindMap[kind] == nil {
 			o.LeaveKindMap[kind] = r.fn(vi, "lk", true)
 		}
 	}
